@@ -494,12 +494,23 @@ def site_log_correspondence(ctx, rng, res, garbage_lines, n):
     for f in ("f32", "f64"):
         for line, fam in gens.gen_boundary(rng, f, n // 8) + gens.gen_random_valid(rng, f, n // 8) + gens.gen_bigint_ties(rng, f, n // 16):
             lines.append("pfl" + line.split(" ## ")[0][2:])
+        # inputs whose digit cut ends a 19-digit chunk (f32: 114 = 6 x 19), i.e. the table's last entry is consumed
+        lng = [x for x in _mod().cases_long(rng, "quick", f) if len(x[0]) < 3000]
+        for line, fam in rng.sample(lng, min(len(lng), max(20, n // 10))):
+            lines.append("pfl" + line.split(" ## ")[0][2:])
     hist = {}
     total = 0
     for c in ("std", "std+alloc", "std+compact"):
         if c not in ctx.cfgs:
             continue
-        M = run_logmodel(c, lines)
+        try:
+            M = run_logmodel(c, lines)
+        except Exception as ex:
+            # the model side needs the theorem modules; when they no longer build the real log is still judged
+            # on its own (index < length) and the missing comparison is recorded
+            M = ["- log -"] * len(lines)
+            res.extra["site_log_model"] = "unavailable: %s" % (str(ex)[:200],)
+        model_ok = "site_log_model" not in res.extra
         for p in ctx.profiles:
             I = run_impl(c, p, lines)
             for line, a, b in zip(lines, I, M):
@@ -516,6 +527,8 @@ def site_log_correspondence(ctx, rng, res, garbage_lines, n):
                     hist["%d" % sid] = hist.get("%d" % sid, 0) + 1
                     if idx >= bnd:
                         res.viol.append(("out-of-bounds-table-read", dict(case=line[:500], cfg=c, profile=p, table=sid, index=idx, length=bnd)))
+                if not model_ok:
+                    continue
                 if ao.startswith("panic") or bo.startswith("panic") or p == "dbg":
                     # a panicking run stops early (and a checked build may trap earlier): its log is a prefix
                     if not bl.startswith(al if al != "-" else "") and al != "-":
@@ -1163,6 +1176,13 @@ def table_check():
             exp = f_bits_of(f, 10 ** i) if i < cnt else 0
             if int(v) != exp:
                 bad.append(dict(table=name, index=i, actual=v, expected=str(exp)))
+    # every index the algorithms consume must exist: parse_mantissa reads 10^0 .. 10^19 (a full 19-digit chunk at
+    # the digit cut), pow reads 5^0 .. 5^27, the fast path reads 10^0 .. 10^10 / 10^22 and 10^0 .. 10^15 as integers
+    for name, need in (("SMALL_INT_POW10", 20), ("SMALL_INT_POW5", 28), ("SMALL_F32_POW10", 11), ("SMALL_F64_POW10", 23)):
+        have = len(d[name].split())
+        if have < need:
+            bad.append(dict(table=name, index=have, actual="table has %d entries" % have,
+                            expected="entries 0 .. %d are consumed" % (need - 1)))
     lp = [int(x) for x in d["LARGE_POW5"].split()]
     n += 1
     if to_nat(lp) != 5 ** int(d["LARGE_POW5_STEP"]) or int(d["LARGE_POW5_STEP"]) != 135:
